@@ -9,7 +9,7 @@ for ID in "$@"; do
   git -C /repo worktree add -q --detach $W HEAD || continue
   if ! git -C $W apply $(realpath $P) 2>/dev/null; then echo "$ID: does not apply"; git -C /repo worktree remove --force $W; continue; fi
   export W
-  RES=$(for pr in $PROPS; do echo $pr; done | xargs -P 6 -I{} bash -c 'out=$(/verif/bin/dtcheck -property {} -tier quick -repo $W -verif /tmp/seedrun-verif 2>&1); rc=$?; if [ $rc -eq 1 ]; then echo "{}:VIOL[$(echo "$out" | grep -oE "\[C[0-9]+\.[0-9a-z]+[^]]{0,70}" | head -2 | tr "\n" ";")]"; elif [ $rc -ne 0 ]; then echo "{}:STUCK[$(echo "$out" | grep -E "UNDECIDED|CHECKER" | head -1 | cut -c1-140)]"; fi' | sort | tr '\n' ' ')
+  RES=$(for pr in $PROPS; do echo $pr; done | xargs -P 6 -I{} bash -c 'out=$(${DTCHECK:-/verif/bin/dtcheck} -property {} -tier quick -repo $W -verif /tmp/seedrun-verif 2>&1); rc=$?; if [ $rc -eq 1 ]; then echo "{}:VIOL[$(echo "$out" | grep -oE "\[C[0-9]+\.[0-9a-z]+[^]]{0,70}" | head -2 | tr "\n" ";")]"; elif [ $rc -ne 0 ]; then echo "{}:STUCK[$(echo "$out" | grep -E "UNDECIDED|CHECKER" | head -1 | cut -c1-140)]"; fi' | sort | tr '\n' ' ')
   echo "$ID => ${RES:-MISSED}"
   git -C /repo worktree remove --force $W
 done
